@@ -571,6 +571,14 @@ func c13Bases() map[string]*world.World {
 		world.WL{Queue: "qa", Pods: []world.PodSpec{{Shape: shF3, State: world.StRunning, Node: "n1", Groups: []string{"A"}}, {Shape: shF5, State: world.StTerminating, Node: "n1", Groups: []string{"A"}}}},
 		world.WL{Queue: "qa", Pods: pods(1, shF7, "", "")},
 		world.WL{Queue: "qa", Pods: pods(1, shMF2, "", "")})
+	// fractional pods on TWO nodes: an evicted sharer can be nominated onto the other node's device, and
+	// undoing that has to put it back into its own device group
+	n11 := []world.NodeOpt{{Name: "n1", CPU: "8", Mem: "16Gi", GPUs: 1, GPUMemMiB: 40000}, {Name: "n2", CPU: "8", Mem: "16Gi", GPUs: 1, GPUMemMiB: 40000}}
+	mk("two-nodes-fractions", n11,
+		world.WL{Queue: "qb", Pods: []world.PodSpec{{Shape: shF5, State: world.StRunning, Node: "n1", Groups: []string{"A"}}}},
+		world.WL{Queue: "qb", Pods: []world.PodSpec{{Shape: shF3, State: world.StRunning, Node: "n2", Groups: []string{"B"}}}},
+		world.WL{Queue: "qa", Pods: pods(1, shF5, "", "")},
+		world.WL{Queue: "qa", Pods: pods(1, shF7, "", "")})
 	mk("two-nodes-gang", n22,
 		world.WL{Queue: "qb", MinMember: 2, Pods: []world.PodSpec{{Shape: shG1, State: world.StRunning, Node: "n1"}, {Shape: shG1, State: world.StRunning, Node: "n2"}}},
 		world.WL{Queue: "qa", Pods: pods(1, shG2, "", "")},
